@@ -883,6 +883,9 @@ func (a *pubAnalysis) checkWire() {
 				got[0] &^= 8
 				if !bytes.Equal(want, got) {
 					a.violate("C01", "wire-differs-from-record", "conn %d: PUBLISH of message %d differs from the stored record", c.Idx, pi.pub.N)
+					// C05: DUP is all that marks a re-delivery
+					a.violate("C05", "redelivery-differs-beyond-dup", "conn %d: the PUBLISH of message %d differs from what was accepted in more than the DUP flag (got first byte %#02x, stored %#02x)", c.Idx, pi.pub.N, p.Raw[0], pi.stored[0])
+					a.violate("C03", "redelivery-differs-beyond-dup", "conn %d: the PUBLISH of message %d differs from what was accepted in more than the DUP flag", c.Idx, pi.pub.N)
 				}
 			}
 			if uint(p.ID) != pi.key {
